@@ -330,4 +330,186 @@ theorem hiCorr_neg (sl sh D qn0 Qup Qh qh Y tp : Nat) (hQh1 : 1 ≤ Qh) (hQh : Q
   have : Qup * B ^ sh + Qh - 1 = Qup * B ^ sh + (Qh - 1) := by omega
   rw [this]
 
+/-- the top sl+2 limbs of a normalised divisor are at least B^(sl+2)/2 -/
+theorem half_norm (sl D Pk : Nat) (hPk : 0 < Pk) (hnorm : Pk * B ^ (sl + 2) ≤ 2 * D) : B ^ (sl + 2) ≤ 2 * (D / Pk) := by
+  have hBe : B = 2 * (B / 2) := by rw [B_eq]
+  have e2 : B ^ (sl + 2) = 2 * (B ^ (sl + 1) * (B / 2)) := by
+    rw [pow_succ B (sl + 1)]
+    calc B ^ (sl + 1) * B = B ^ (sl + 1) * (2 * (B / 2)) := by rw [← hBe]
+      _ = 2 * (B ^ (sl + 1) * (B / 2)) := by ring
+  have : B ^ (sl + 1) * (B / 2) ≤ D / Pk := by
+    rw [Nat.le_div_iff_mul_le hPk]
+    rw [e2] at hnorm
+    have e3 : Pk * (2 * (B ^ (sl + 1) * (B / 2))) = 2 * (B ^ (sl + 1) * (B / 2) * Pk) := by ring
+    omega
+  omega
+
+theorem lt_mul_div_succ' (W P : Nat) (hP : 0 < P) : W < P * (W / P + 1) := by
+  have := Nat.div_add_mod W P
+  have := Nat.mod_lt W hP
+  nlinarith
+
+/-- dc_divappr_q.c:106-129: middle product, subtraction, correction loop.  Given the high half Qh with its truncated
+    remainder r3h (relative to the divisor cut by sl limbs) and W < (Qh+1)·B^sl·D, the state after the loop holds a high
+    half Qh' ∈ {Qh, Qh-1} whose truncated remainder relative to the FULL divisor is non-negative and is what the limbs
+    (X, cy) hold; the loop ran at most once; still W < (Qh'+1)·B^sl·D. -/
+theorem mid_spec (n sl sh W D Qup qh qn0 Qh r3h : Nat) (hn : n = sl + sh) (hsh : 1 ≤ sh) (hsl : 1 ≤ sl)
+    (hD : D < B ^ (n + 1)) (hnorm : B ^ (n + 1) ≤ 2 * D) (hsz : 2 * (n + 2) ≤ B) (hqh : qh ≤ 1) (hQh : Qh < B ^ sh)
+    (hXH : W / B ^ (n + sl - 1) = tS (D / B ^ sl) Qh sh + r3h) (hfl : W < (Qh + 1) * B ^ sl * D) :
+    ∃ Qh' X cyf cnt,
+      hiCorr true sl sh D qn0 loopFuel
+        (Qup * B ^ sh + Qh, qh,
+          (subN (sl + 2) (W / B ^ (n - 1) % B ^ sl + B ^ sl * (r3h % B ^ 2)) (mulmidV (n - 1) sh D Qh sh)).1,
+          (r3h / B ^ 2 + B - (subN (sl + 2) (W / B ^ (n - 1) % B ^ sl + B ^ sl * (r3h % B ^ 2))
+            (mulmidV (n - 1) sh D Qh sh)).2) % B, 0)
+        = (Qup * B ^ sh + Qh', qh, X, cyf, cnt) ∧
+      Qh' < B ^ sh ∧ X < B ^ (sl + 2) ∧ cyf ≤ 1 ∧ cnt ≤ 1 ∧
+      W / B ^ (n - 1) = tS D Qh' sh + X + B ^ (sl + 2) * cyf ∧ W < (Qh' + 1) * B ^ sl * D := by
+  have hB := B_pos
+  have hB2 : 2 ≤ B := by rw [B_eq]; omega
+  have hPs := Bpow_pos sl
+  have hshB : sh ≤ B := by omega
+  obtain ⟨j, hj⟩ : ∃ j, sh = j + 1 := ⟨sh - 1, by omega⟩
+  -- the middle product
+  have htp : mm sl D Qh sh = mulmidV (n - 1) sh D Qh sh := by
+    have := mm_eq_mulmidV sl (n - 1) sh D hsl (by omega) sh 0 Qh hQh rfl
+    rw [pow_zero, Nat.div_one] at this; exact this
+  have htS := tS_mm sl sh D Qh
+  have hmm := mm_le sl sh D Qh hQh
+  rw [htp] at htS hmm
+  generalize mulmidV (n - 1) sh D Qh sh = tp at *
+  -- bounds on D
+  have ePn : B ^ (n + 1) = B ^ sl * (B * B * B ^ j) := by
+    rw [hn, hj]; rw [show sl + (j + 1) + 1 = sl + (1 + 1 + j) by omega, pow_add, pow_add, pow_add, pow_one]
+  have hDc : D / B ^ sl < B * B * B ^ j := by
+    rw [Nat.div_lt_iff_lt_mul hPs, Nat.mul_comm, ← ePn]; exact hD
+  have hDlt : D < B ^ sl * (D / B ^ sl + 1) := lt_mul_div_succ' D _ hPs
+  -- r3h is small
+  have hr3 : r3h < B * B + (j + 2) * B := by
+    have hbnd := (tS_bounds sh (D / B ^ sl) Qh hQh).2
+    rw [hj] at hbnd hQh
+    rw [pow_succ' B j] at hQh
+    rw [pow_succ' B j, show j + 1 + 1 = 1 + 1 + j by omega, pow_add, pow_add, pow_one] at hbnd
+    have e1 : W / B ^ (n + sl - 1) = W / B ^ (2 * sl) / B ^ j := by
+      rw [div_pow_add]; congr 2; omega
+    have hW1 : B ^ j * (W / B ^ (n + sl - 1)) ≤ W / B ^ (2 * sl) := by
+      rw [e1]; exact Nat.mul_div_le _ _
+    have hW2 : W / B ^ (2 * sl) < (Qh + 1) * (D / B ^ sl + 1) := by
+      rw [Nat.div_lt_iff_lt_mul (Bpow_pos _), two_mul, pow_add]
+      have : (Qh + 1) * B ^ sl * D < (Qh + 1) * B ^ sl * (B ^ sl * (D / B ^ sl + 1)) :=
+        Nat.mul_lt_mul_of_pos_left hDlt (by positivity)
+      calc W < (Qh + 1) * B ^ sl * D := hfl
+        _ < (Qh + 1) * B ^ sl * (B ^ sl * (D / B ^ sl + 1)) := this
+        _ = (Qh + 1) * (D / B ^ sl + 1) * (B ^ sl * B ^ sl) := by ring
+    rw [hj] at hXH
+    exact r3_bound j _ Qh (D / B ^ sl) _ r3h _ hQh hDc hXH hbnd hW1 hW2
+  -- the limbs
+  have hdm := Nat.div_add_mod r3h (B ^ 2)
+  have hrlo := Nat.mod_lt r3h (Bpow_pos 2)
+  have hcy0 : r3h / B ^ 2 ≤ 1 := by
+    have : r3h / B ^ 2 < 2 := by
+      rw [Nat.div_lt_iff_lt_mul (Bpow_pos 2), B2']
+      have : (j + 2) * B ≤ B * B := Nat.mul_le_mul_right _ (by omega)
+      omega
+    omega
+  have hxl := Nat.mod_lt (W / B ^ (n - 1)) hPs
+  have hXX := Nat.div_add_mod (W / B ^ (n - 1)) (B ^ sl)
+  have eXH : W / B ^ (n - 1) / B ^ sl = W / B ^ (n + sl - 1) := by
+    rw [div_pow_add]; congr 2; omega
+  rw [eXH, hXH] at hXX
+  have eP : B ^ (sl + 2) = B ^ sl * B ^ 2 := by rw [pow_add]
+  have hPpos := Bpow_pos (sl + 2)
+  have h2tp : 2 * tp ≤ B ^ (sl + 2) := by
+    rw [eP, B2']
+    have : 2 * sh ≤ B := by omega
+    have : 2 * sh * (B * B ^ sl) ≤ B * (B * B ^ sl) := Nat.mul_le_mul_right _ this
+    nlinarith
+  have hYlt : W / B ^ (n - 1) % B ^ sl + B ^ sl * (r3h % B ^ 2) < B ^ (sl + 2) := by
+    rw [eP]
+    have : B ^ sl * (r3h % B ^ 2 + 1) ≤ B ^ sl * B ^ 2 := Nat.mul_le_mul_left _ hrlo
+    nlinarith
+  have hfull : B ^ sl * r3h = B ^ sl * (r3h % B ^ 2) + B ^ (sl + 2) * (r3h / B ^ 2) := by
+    rw [eP]; conv_lhs => rw [← hdm]
+    ring
+  generalize hY : W / B ^ (n - 1) % B ^ sl + B ^ sl * (r3h % B ^ 2) = Y at *
+  -- key identity: XX + tp = Y + P·cy0 + tS D Qh sh
+  have hK : W / B ^ (n - 1) + tp = Y + B ^ (sl + 2) * (r3h / B ^ 2) + tS D Qh sh := by
+    rw [htS, ← hXX, ← hY]
+    have : B ^ sl * (tS (D / B ^ sl) Qh sh + r3h) = B ^ sl * tS (D / B ^ sl) Qh sh + B ^ sl * r3h := by ring
+    rw [this, hfull]; ring
+  have hqhB : qh < B := by omega
+  by_cases hcase : tp ≤ Y + B ^ (sl + 2) * (r3h / B ^ 2)
+  · -- non-negative: no pass
+    have hsub : (subN (sl + 2) Y tp).1 + B ^ (sl + 2) * ((r3h / B ^ 2 + B - (subN (sl + 2) Y tp).2) % B) + tp
+        = Y + B ^ (sl + 2) * (r3h / B ^ 2) ∧ (subN (sl + 2) Y tp).1 < B ^ (sl + 2) ∧
+        (r3h / B ^ 2 + B - (subN (sl + 2) Y tp).2) % B ≤ 1 := by
+      unfold subN
+      generalize r3h / B ^ 2 = cy0 at *
+      generalize B ^ (sl + 2) = P at *
+      by_cases h : Y < tp
+      · rw [if_pos h]
+        simp only []
+        have hc1 : cy0 = 1 := by
+          rcases Nat.eq_zero_or_pos cy0 with h0 | h0
+          · subst h0; omega
+          · omega
+        subst hc1
+        have : (1 + B - 1) % B = 0 := by rw [Nat.add_sub_cancel_left, Nat.mod_self]
+        rw [this]; omega
+      · rw [if_neg h]
+        simp only []
+        have : (cy0 + B - 0) % B = cy0 := by
+          rw [Nat.sub_zero, Nat.add_mod_right, Nat.mod_eq_of_lt (by omega)]
+        rw [this]; omega
+    obtain ⟨s1, s2, s3⟩ := hsub
+    refine ⟨Qh, _, _, 0, hiCorr_stop true sl sh D qn0 _ (by
+      show (r3h / B ^ 2 + B - (subN (sl + 2) Y tp).2) % B < B / 2
+      rw [B_eq] at *; omega) _, hQh, s2, s3, by omega, ?_, hfl⟩
+    omega
+  · -- negative: one pass
+    have hc0 : r3h / B ^ 2 = 0 := by
+      rcases Nat.eq_zero_or_pos (r3h / B ^ 2) with h0 | h0
+      · exact h0
+      · exfalso
+        have : B ^ (sl + 2) * 1 ≤ B ^ (sl + 2) * (r3h / B ^ 2) := Nat.mul_le_mul_left _ h0
+        omega
+    rw [hc0, Nat.mul_zero, Nat.add_zero] at hK hcase
+    have hYtp : Y < tp := by omega
+    have hQh1 : 1 ≤ Qh := by
+      by_contra hc
+      have : Qh = 0 := by omega
+      subst this
+      rw [mm_zero] at htp
+      omega
+    have es : subN (sl + 2) Y tp = (Y + B ^ (sl + 2) - tp, 1) := by
+      unfold subN; rw [if_pos hYtp]
+    have ecy : (0 + B - 1) % B = B - 1 := by rw [Nat.zero_add, Nat.mod_eq_of_lt (by omega)]
+    rw [hc0, es]
+    simp only []
+    rw [ecy]
+    have ePn2 : B ^ (n + 1) = B ^ (sh - 1) * B ^ (sl + 2) := by
+      rw [← pow_add]; congr 1; omega
+    have hF2 : D / B ^ (sh - 1) < B ^ (sl + 2) := by
+      rw [Nat.div_lt_iff_lt_mul (Bpow_pos _), Nat.mul_comm, ← ePn2]; exact hD
+    have hF1 : B ^ (sl + 2) ≤ 2 * (D / B ^ (sh - 1)) := half_norm _ _ _ (Bpow_pos _) (by rw [← ePn2]; exact hnorm)
+    obtain ⟨g1, g2, fs, erun, hg1, hg2, hval, hdec⟩ :=
+      hiCorr_neg sl sh D qn0 Qup Qh qh Y tp hQh1 hQh hqhB hYtp h2tp hF1 hF2 hshB
+    refine ⟨Qh - 1, g1, g2, 1, erun, by omega, hg1, hg2, le_refl _, by omega, ?_⟩
+    -- the floor side
+    have hb := (tS_bounds sh D Qh hQh).1
+    have hlt := lt_mul_div_succ' W (B ^ (n - 1)) (Bpow_pos _)
+    have hXlt : W / B ^ (n - 1) + 1 ≤ tS D Qh sh := by omega
+    have e3 : B ^ (n - 1) * B = B ^ sl * B ^ sh := by
+      rw [← pow_succ, ← pow_add]; congr 1; omega
+    have h1 : B ^ (n - 1) * (W / B ^ (n - 1) + 1) ≤ B ^ (n - 1) * tS D Qh sh := Nat.mul_le_mul_left _ hXlt
+    have h2 : B ^ sl * (B ^ sh * tS D Qh sh) ≤ B ^ sl * (B * (Qh * D)) := Nat.mul_le_mul_left _ hb
+    have h3 : B * (B ^ (n - 1) * tS D Qh sh) ≤ B * (Qh * B ^ sl * D) := by
+      calc B * (B ^ (n - 1) * tS D Qh sh) = B ^ sl * (B ^ sh * tS D Qh sh) := by
+            rw [← Nat.mul_assoc, Nat.mul_comm B, e3]; ring
+        _ ≤ B ^ sl * (B * (Qh * D)) := h2
+        _ = B * (Qh * B ^ sl * D) := by ring
+    have h4 := Nat.le_of_mul_le_mul_left h3 hB
+    have : Qh - 1 + 1 = Qh := by omega
+    rw [this]; omega
+
 end Mpir.DcDivappr
